@@ -17,7 +17,7 @@ from pyvc.state import Obligation  # noqa: E402
 
 # one consistent set of contracts for every property (order matters: later sidecars refine earlier ones)
 ALL_SIDECARS = ("severity", "results", "externals", "interp", "interp_run", "pickled_inv", "pickled_api", "analysis", "analyses", "loader",
-                "hooks", "ml", "anchoring")
+                "hooks", "ml", "anchoring", "parse")
 
 EXIT_OK, EXIT_VIOLATION, EXIT_UNDECIDED, EXIT_ERROR = 0, 1, 2, 3
 
@@ -77,7 +77,7 @@ class Run:
     def finish(self):
         obs = self.all_obligations()
         self.t_build = time.time() - self.t0
-        discharge(obs, self.eng.rules, seed=self.seed)
+        discharge(obs, self.eng.rules, seed=self.seed, extra_axioms=getattr(self.eng, "background", None))
         self.t_solve = time.time() - self.t0 - self.t_build
         covers = [c for r in self.fn_results for c in r.covers]
         bad_cover = [n for n, ok in covers if not ok]
@@ -126,6 +126,8 @@ class Run:
                 violations.remove(o)
                 weak.append(o)
         undecided += weak
+        for q, nl, stale in getattr(self.eng, "stale_loops", []):
+            print(f"NOTE: {q} now has {nl} loop(s); the sidecar's invariant(s) for loop {stale} are unused")
         for fn, ordn, line in getattr(self.eng, "unannotated_loops", []):
             print(f"NOTE: {fn} loop #{ordn} (line {line}) has no invariant in the sidecar; proved with the trivial invariant and an inferred frame")
         for bp in self.bounded_parts:
